@@ -149,10 +149,10 @@ func (c *SymbolNode) Ancestry() []rune {
 		// Build the text in a slice of its own: appending to the parent's
 		// cached slice would share its backing array between siblings
 		ancestry := []rune{}
+		// Only the root (the node without a parent) stands for no character;
+		// U+0000 is a character like any other
 		if c.parent != nil {
 			ancestry = append(ancestry, c.parent.Ancestry()...)
-		}
-		if c.character != 0 {
 			ancestry = append(ancestry, c.character)
 		}
 		c.ancestry = ancestry
